@@ -11,3 +11,6 @@ package fileutil
 //@ func CreateFlagFile [C16]
 //@ trusted file-system effects (create, write, file sync, close, directory sync) are outside the subset
 //@ ghostset gFlagDir := ite(result == nil, dir, old(gFlagDir))
+
+//@ func SyncDir [C16 C10]
+//@ trusted opens the directory and fsyncs it (file-system effect only)
